@@ -51,4 +51,4 @@ def run(ses):
 
 confirm = c01.confirm
 replay = c01.replay
-BASELINE = ['core_api', 'core_builder_reuse']
+BASELINE = ['core_api', 'rsa_pool', 'core_builder_reuse']
